@@ -1,5 +1,7 @@
 (* Correspondence for C17: KernelModel._full_coverage_mask on in-memory RasterArrays versus Kernel.Morph.full_coverage.
-   Case: [kh; kw; H; W; H*W covered flags; H*W joint flags; H*W observed mask] *)
+   Case kind 0: [0; kh; kw; H; W; H*W covered flags; H*W joint flags; H*W observed mask]
+   Case kind 1: [1; kh; kw; mask_partial; oh; ow] - the block overlap RasterFuse.process handed to block_pairs: at least the erosion
+                reach (kernel half-size + 1), plus one with partial masking (the premise of Kernel.MorphProofs.seam_sampling_safe) *)
 From Coq Require Import ZArith List Bool Uint63 PrimFloat.
 From HV Require Import Base.ZRange Base.FloatDec Kernel.Morph.
 Import ListNotations.
@@ -7,7 +9,14 @@ Open Scope Z_scope.
 
 Definition img_of (W : Z) (l : list float) : Z -> Z -> bool :=
   fun r c => if (r <? 0) || (c <? 0) || (W <=? c) then false else (f2z (nth (Z.to_nat (r * W + c)) l nan) =? 1).
-Definition check (l : list float) : bool :=
+Definition check_overlap (l : list float) : bool :=
+  match l with
+  | kh :: kw :: mp :: oh :: ow :: _ =>
+    let extra := if f2z mp =? 1 then 1 else 0 in
+    ((f2z kh - 1) / 2 + 1 + extra <=? f2z oh) && ((f2z kw - 1) / 2 + 1 + extra <=? f2z ow)
+  | _ => false
+  end.
+Definition check_cov (l : list float) : bool :=
   match l with
   | kh :: kw :: fH :: fW :: r =>
     let H := f2z fH in let W := f2z fW in let n := Z.to_nat (H * W) in
@@ -17,5 +26,7 @@ Definition check (l : list float) : bool :=
             (list_prod (zrange 0 (Z.to_nat H)) (zrange 0 (Z.to_nat W)))
   | _ => false
   end.
+Definition check (l : list float) : bool :=
+  match l with k :: r => if f2z k =? 0 then check_cov r else check_overlap r | [] => false end.
 Definition nontrivial (l : list float) : bool :=
-  match l with kh :: kw :: _ => negb (f2z kh =? f2z kw) || (3 <=? f2z kh) | _ => false end.
+  match l with _ :: kh :: kw :: _ => negb (f2z kh =? f2z kw) || (3 <=? f2z kh) | _ => false end.
